@@ -136,3 +136,29 @@ Theorem C08_reduction_inverts_elevation_general : forall p t, (1 <= p)%nat -> (1
   degree_elevation_pts Rops p P (Z.of_nat t) = Ok Q -> reduce_n_pts t (p + t) Q = Ok P.
 Proof. exact reduction_inverts_elevation_pts_general. Qed.
 Print Assumptions C08_reduction_inverts_elevation_general.
+
+(* ====================== TRANSLATOR TIE (Proofs/GenTie*.v) ======================
+   coq/Gen/*.v is the Gallina rendering of the Python source produced by harness/pytrans.py; every run of ./check regenerates it
+   from /repo and compares it function by function with the committed text (evidence: translator_tie).  The theorems below say
+   that the hand-written model (the subject of the theorems above) computes, for ALL inputs satisfying the stated
+   well-formedness, exactly what the translated source computes.  This block stays LAST in the file: its imports shadow
+   model names. *)
+From Coq Require Import List QArith Reals Qreals Lia Lra Arith Bool ZArith.
+From NV Require Import Scalar.Ops Model.Common Model.Basis Model.Knots Model.KnotIns Model.KnotRem Model.LinAlg Model.Degree
+  Gen.Prelude Gen.LinalgInternal Gen.Linalg Gen.Knotvector Gen.Helpers
+  Proofs.GenTieSums Proofs.GenTieLinAlg Proofs.GenTieSubst Proofs.GenTieLU Proofs.GenTieLUSolve Proofs.GenTieKnotRem Proofs.GenTieDegree
+  Proofs.GenTieLib Proofs.GenTieKnots Proofs.GenTieSpan Proofs.GenTieBasis Proofs.GenTieBasisOne
+  Proofs.GenTieDersOne Proofs.GenTieDersLib Proofs.GenTieDers Proofs.GenTieKnotIns.
+Local Open Scope nat_scope.
+
+(* [G] helpers.degree_reduction (as repaired), check_num = True, control points = lists of coordinates: ALL inputs;
+   GeomdlException <-> Rejected.  The source uses float(i) (unary), the model ofnatb (binary): equal under nat_laws K
+   (sum_laws + 0 + 1 = 1 + 2 * x = x + x), proved for Rops and Qops *)
+Theorem C08_gen_degree_reduction_R : forall (p : nat) (P : list (list R)),
+  Helpers.degree_reduction Rops (Z.of_nat p) P true = res_to_gres (fun x => x) GeomdlError IndexError (degree_reduction_pts Rops p P).
+Proof. exact degree_reduction_tie_R. Qed.
+Print Assumptions C08_gen_degree_reduction_R.
+Theorem C08_gen_degree_reduction_Q : forall (p : nat) (P : list (list Q)),
+  Helpers.degree_reduction Qops (Z.of_nat p) P true = res_to_gres (fun x => x) GeomdlError IndexError (degree_reduction_pts Qops p P).
+Proof. exact degree_reduction_tie_Q. Qed.
+Print Assumptions C08_gen_degree_reduction_Q.
